@@ -61,6 +61,8 @@ VARIANTS = (
     ('prune-on', {'prune_memos_on_cut': True}),
     ('trace', {'trace': True}),
     ('trace-no-color', {'trace': True, 'colorize': False}),
+    # a trace column narrower than a rule name: the tracer has to shorten the rule stack it prints
+    ('trace-narrow', {'trace': True, 'trace_length': 3}),
     ('colorize-off', {'colorize': False}),
     ('colorize-on', {'colorize': True}),
     ('parseinfo', {'parseinfo': True}),
@@ -306,7 +308,58 @@ def run(tier='quick', seed=0, info=None):
     if info is not None:
         info.setdefault('bounded', []).append({'run': 'bC04', 'tier': tier, 'wall_s': round(budget.spent(), 1)})
     run.summary = [('configuration-matrix', stats, budget.spent())]
-    return items
+    return items + veto_items()
+
+
+# semantic actions that veto a rule (FailedSemantics): the failure the parse reports must not depend on memoization either
+class _Veto:
+    """vetoes the rule `strict` always, and the rule `a` for the text 'aa'"""
+
+    def strict(self, ast):
+        from tatsu.exceptions import FailedSemantics
+        raise FailedSemantics('strict mode is not enabled')
+
+    def a(self, ast):
+        from tatsu.exceptions import FailedSemantics
+        if ast == 'aa':
+            raise FailedSemantics('aa is not allowed')
+        return ast
+
+
+VETO_GRAMMARS = (
+    ('predicate-rule-tried-twice', "start = stmt $ ;\nstmt = 'let' strict name '=' name | 'let' strict '(' name ')' ;\nstrict = () ;\nname = /[a-z]+/ ;",
+     ('let (x)', 'let x = y', 'let', 'let x', '')),
+    ('vetoed-rule-three-options', "start = a 'b' $ | a 'c' $ | a $ ;\na = /a+/ ;", tuple(G.inputs('abc', 4))),
+    ('vetoed-rule-in-closure', "start = {a ','} a $ | {a ';'} $ ;\na = /a+/ ;", tuple(G.inputs('a,;', 5))),
+)
+
+
+def veto_items():
+    cases, failures, samples = 0, [], []
+    with _silenced():
+        for name, text, inputs in VETO_GRAMMARS:
+            model = tatsu.compile(text)
+            _src, cls = load_generated(text)
+            for who, parse in (('model', model.parse), ('generated parser', lambda i, **kw: cls().parse(i, **kw))):
+                for inp in inputs:
+                    ref = exact_outcome(lambda: parse(inp, semantics=_Veto()))
+                    for vname, settings in VARIANTS:
+                        if 'parseinfo' in settings:
+                            continue
+                        cases += 1
+                        got = exact_outcome(lambda: parse(inp, semantics=_Veto(), **settings))
+                        if got != ref:
+                            failures.append({'witness': {'grammar': text, 'input': inp, 'parser': who, 'settings': settings,
+                                                         'semantics': 'FailedSemantics from the action of `strict` (always) / of `a` for "aa"'},
+                                             'cls': f'{vname}-changes-the-outcome-of-a-vetoed-parse',
+                                             'detail': f'reference configuration: {ref!r}; with {settings}: {got!r}'})
+                    if len(samples) < 2 and ref[0] == 'fail':
+                        samples.append({'grammar': text, 'input': inp, 'reference': repr(ref)})
+    return bitem(PROP, 'semantic-veto-matrix', function=FUNCTION,
+                 domain=f'{len(VETO_GRAMMARS)} grammars whose semantic actions veto a rule with FailedSemantics (a zero-width predicate rule tried by two '
+                        'alternatives at one position; a vetoed rule under three options; in closures) x their inputs x the variants, model and generated parser',
+                 bound='inputs listed / all strings <= 4-5 over 3 letters', cases=cases, distinct_nontrivial=cases // 2, rule='a case is (grammar, input, parser, variant)',
+                 exhaustive=True, samples=samples, failures=failures)
 
 
 def main(argv=None):
